@@ -182,6 +182,7 @@ func (da *DistributedAllocator) Allocate(ctx context.Context, subscriberID strin
 
 	var prefix *net.IPNet
 	var epoch uint64
+	existed := da.hasLocal(subscriberID)
 
 	// Use appropriate allocator based on mode
 	if da.mode == PoolModeLease {
@@ -213,11 +214,15 @@ func (da *DistributedAllocator) Allocate(ctx context.Context, subscriberID strin
 	}
 
 	if err := da.saveAllocation(ctx, alloc); err != nil {
-		// Rollback local allocation
-		if da.mode == PoolModeLease {
-			da.epochAllocator.Release(ctx, subscriberID)
-		} else {
-			da.allocator.Release(subscriberID)
+		// Rollback local allocation - but only one made by this call: an
+		// allocation that existed before is still recorded in the store
+		// and still in use by the subscriber.
+		if !existed {
+			if da.mode == PoolModeLease {
+				da.epochAllocator.Release(ctx, subscriberID)
+			} else {
+				da.allocator.Release(subscriberID)
+			}
 		}
 		return nil, fmt.Errorf("save allocation: %w", err)
 	}
@@ -232,6 +237,7 @@ func (da *DistributedAllocator) AllocateWithMAC(ctx context.Context, subscriberI
 
 	var prefix *net.IPNet
 	var epoch uint64
+	existed := da.hasLocal(subscriberID)
 
 	// Use appropriate allocator based on mode
 	if da.mode == PoolModeLease {
@@ -260,10 +266,12 @@ func (da *DistributedAllocator) AllocateWithMAC(ctx context.Context, subscriberI
 	}
 
 	if err := da.saveAllocation(ctx, alloc); err != nil {
-		if da.mode == PoolModeLease {
-			da.epochAllocator.Release(ctx, subscriberID)
-		} else {
-			da.allocator.Release(subscriberID)
+		if !existed {
+			if da.mode == PoolModeLease {
+				da.epochAllocator.Release(ctx, subscriberID)
+			} else {
+				da.allocator.Release(subscriberID)
+			}
 		}
 		return nil, fmt.Errorf("save allocation: %w", err)
 	}
@@ -300,18 +308,32 @@ func (da *DistributedAllocator) Release(ctx context.Context, subscriberID string
 	da.mu.Lock()
 	defer da.mu.Unlock()
 
-	// Release from appropriate allocator
-	if da.mode == PoolModeLease {
-		if err := da.epochAllocator.Release(ctx, subscriberID); err != nil {
-			return err
-		}
-	} else {
-		if err := da.allocator.Release(subscriberID); err != nil {
-			return err
-		}
+	if da.mode != PoolModeLease && da.allocator.Lookup(subscriberID) == nil {
+		return da.allocator.Release(subscriberID) // reports "not allocated"
 	}
 
-	return da.deleteAllocation(ctx, subscriberID)
+	// Remove the persisted record first: if the store refuses, nothing has
+	// changed locally and the caller can retry. (Releasing locally first left
+	// a stale record behind that could displace the address's next holder on
+	// restart.)
+	if err := da.deleteAllocation(ctx, subscriberID); err != nil {
+		return err
+	}
+
+	// Release from appropriate allocator
+	if da.mode == PoolModeLease {
+		return da.epochAllocator.Release(ctx, subscriberID)
+	}
+	return da.allocator.Release(subscriberID)
+}
+
+// hasLocal reports whether the subscriber currently holds an allocation in
+// the local allocator. Caller must hold da.mu.
+func (da *DistributedAllocator) hasLocal(subscriberID string) bool {
+	if da.mode == PoolModeLease {
+		return da.epochAllocator.Lookup(subscriberID) != nil
+	}
+	return da.allocator.Lookup(subscriberID) != nil
 }
 
 // Get returns the allocation for a subscriber.
